@@ -155,27 +155,32 @@ def report(ck, bad, badb):
         ck.failures.append(f)
 
 
-def confirm(ck, binp, recs, bad, badb):
-    """Timing-dependent observations are confirmed by re-running the affected plans once in isolation."""
-    if not bad and not badb:
-        return bad, badb
-    if badb and any(b["hang"] for b in badb):
-        return bad, badb  # a blocked layer is not a timing artefact
-    inp = os.path.join(ck.work, "confirm_in.jsonl")
-    with open(inp, "w") as f:
-        for r, _ in bad:
-            f.write(json.dumps(r) + "\n")
-        for b in badb:
-            for r in recs:
-                if r["k"] == "call" and r["batch"] == b["batch"]:
-                    f.write(json.dumps(r) + "\n")
-    again = ck.run_harness(binp, ["-in", inp], out_name="confirm.jsonl")
-    if again is None:
-        return bad, badb
-    bad2, badb2 = evaluate(ck, again, tag="confirm", count=False)
-    ck.notes.append("%d call(s)/%d batch(es) off the oracle or model in the main run were re-run in isolation: %d/%d reproduced" % (
-        len(bad), len(badb), len(bad2), len(badb2)))
-    return bad2, badb2
+def confirm(ck, binp, recs, bad, badb, rounds=2):
+    """Timing-dependent observations are confirmed by re-running the affected plans in isolation (up to `rounds` times):
+    only what deviates again every time is reported. A blocked layer is reported at once."""
+    n0, b0 = len(bad), len(badb)
+    for k in range(rounds):
+        if not bad and not badb:
+            break
+        if any(b["hang"] for b in badb):
+            return bad, badb  # a blocked layer is not a timing artefact
+        inp = os.path.join(ck.work, "confirm_in.jsonl")
+        with open(inp, "w") as f:
+            for r, _ in bad:
+                f.write(json.dumps(r) + "\n")
+            for b in badb:
+                for r in recs:
+                    if r["k"] == "call" and r["batch"] == b["batch"]:
+                        f.write(json.dumps(r) + "\n")
+        again = ck.run_harness(binp, ["-in", inp], out_name="confirm.jsonl")
+        if again is None:
+            return bad, badb
+        recs = again
+        bad, badb = evaluate(ck, again, tag="confirm%d" % k, count=False)
+    if n0 or b0:
+        ck.notes.append("%d call(s)/%d batch(es) off the oracle or model in the main run were re-run in isolation: %d/%d reproduced" % (
+            n0, b0, len(bad), len(badb)))
+    return bad, badb
 
 
 def run(ck):
